@@ -54,8 +54,11 @@ def gen_frame(rng, n_pre=None, cooldown=None, cost_kind=None, spike=False):
   n_c, n_t = rng.randint(1, 4), rng.randint(1, 4)
   n_un = rng.choice([0, 0, 1, 3])       # unassigned geos
   cost_kind = cost_kind or rng.choice(['fixed', 'fixed', 'variable'])
-  T = n_lead + n_pre + n_test + n_cool
-  period = [-1] * n_lead + [0] * n_pre + [1] * n_test + [2] * n_cool
+  n_trail = rng.choice([0, 0, 0, 2])     # dates after the experiment
+  # dates outside the experiment carry the 'unassigned' label, or some other label that is none of the four the analysis knows
+  lead_label, trail_label = rng.choice([-1, -1, 5]), rng.choice([-1, 6])
+  T = n_lead + n_pre + n_test + n_cool + n_trail
+  period = [lead_label] * n_lead + [0] * n_pre + [1] * n_test + [2] * n_cool + [trail_label] * n_trail
   base = [rng.uniform(80, 120)]
   for _ in range(T - 1):
     base.append(max(20.0, base[-1] + rng.uniform(-12, 12)))
@@ -166,6 +169,16 @@ def series(fr, use_cooldown=True, col=4, rows=None):
 def real_tbr(fr, target='response', use_cooldown=True, rows=None):
   from matched_markets.methodology import tbr
   m = tbr.TBR(use_cooldown=use_cooldown)
+  if fr.get('refit_after') is not None and rows is None:
+    # the analysis object was used for another experiment before: fitted, reported on, and now fitted again
+    prev = fr['refit_after']
+    try:
+      kwp = fit_kwargs(prev)
+      m.fit(to_df(prev), kwp.get('key_' + target, target), **kwp)
+      m.summary(report='last')
+      m.causal_cumulative_distribution()
+    except Exception:
+      pass
   kw = fit_kwargs(fr)
   m.fit(to_df(fr, rows), kw.get('key_' + target, target), **kw)
   return m
